@@ -208,7 +208,7 @@ fn c06_q_spsc_stream_rearms() {
 /// Ok(2) only after everything was admitted, and it is woken whenever it was Pending and space appeared.
 #[kani::proof]
 #[kani::unwind(5)]
-fn c01_t_spsc_async_send_batch() {
+fn c01_x_spsc_async_send_batch() {
   with_pick(2, |pre| {
     let (mut tx, mut rx) = spsc::bounded_async::<u8>(2);
     let mut i = 0u8;
